@@ -310,6 +310,14 @@ func reg2bin(beg, end int64, minShift, depth uint32) uint32 {
 
 // calculate the list of bins that may overlap with region [beg,end) (zero-based).
 func reg2bins(beg, end int64, minShift, depth uint32) []uint32 {
+	if beg < 0 {
+		beg = 0
+	}
+	if end <= beg {
+		// An empty interval overlaps no bin. (With end <= 0 the bin
+		// numbers below would wrap around.)
+		return nil
+	}
 	end--
 	var list []uint32
 	s := minShift + depth*nextBinShift
